@@ -297,6 +297,11 @@ var runSeq int64
 
 // RunSim executes one simulated run in a fresh OS process and returns everything it did.
 func RunSim(binary string, sc *Scenario, workDir string) *Result {
+	return RunSimEnv(binary, sc, workDir, "1")
+}
+
+// RunSimEnv is RunSim with the child's GOMAXPROCS chosen by the caller (determinism self-test).
+func RunSimEnv(binary string, sc *Scenario, workDir string, gomaxprocs string) *Result {
 	t0 := time.Now()
 	dir, err := os.MkdirTemp(workDir, "run-")
 	if err != nil {
@@ -320,7 +325,7 @@ func RunSim(binary string, sc *Scenario, workDir string) *Result {
 	defer cancel()
 	cmd := exec.CommandContext(ctx, binary, sc.Argv...)
 	cmd.Dir = cwd
-	cmd.Env = []string{"VERIF_SIM=" + scPath, "GOMAXPROCS=1", "GOTRACEBACK=single", "PATH=/usr/bin:/bin"}
+	cmd.Env = []string{"VERIF_SIM=" + scPath, "GOMAXPROCS=" + gomaxprocs, "GOTRACEBACK=single", "PATH=/usr/bin:/bin"}
 	var so, se capWriter
 	cmd.Stdout = &so
 	cmd.Stderr = &se
